@@ -3,7 +3,7 @@ from harness import common, layera as A, schemes as S
 
 from harness.known import replay_known  # noqa: F401
 
-MODULES = ["Univers.Props.C03"]
+MODULES = ["Univers.Props.C03", "Univers.Scheme.TablesThm"]
 LEVEL = "proof"
 RULE = ("per scheme: pairs of version texts over the scheme's full grammar (epochs, revisions, leading zeros, tildes, carets, "
         "letter suffixes, pre/post/dev tags, qualifiers and aliases, build metadata, case variants, unequal segment counts) "
